@@ -692,6 +692,37 @@ func c07Decrypt(c *Ctx, mk *ssa.Function, tr *an.Tracer) {
 			}
 		}
 	}
+	// the fingerprint is a 64-bit number and is compared as one: a comparison narrowed to 32 bits accepts an offered
+	// fingerprint that differs from the configured key's in its other half
+	if mk := c.P.Func(load.RootMod, "*MTProto", "makeAuthKey"); mk != nil {
+		trw := an.NewTracer()
+		n := 0
+		var bad []string
+		for _, f := range append([]*ssa.Function{mk}, mk.AnonFuncs...) {
+			for _, i := range an.Ifs(f) {
+				cd, ok := an.Classify(i)
+				if !ok || cd.Kind != "eq" || cd.X == nil || cd.Y == nil {
+					continue
+				}
+				ox := trw.OriginString(cd.X) + " " + strings.Join(an.SortedKeys(an.NewDeps(c.inRepo).Of(cd.X).Roots), " ")
+				oy := trw.OriginString(cd.Y) + " " + strings.Join(an.SortedKeys(an.NewDeps(c.inRepo).Of(cd.Y).Roots), " ")
+				if !(strings.Contains(ox+oy, "ResPQ.Fingerprints") && strings.Contains(ox+oy, "RSAFingerprint")) {
+					continue
+				}
+				n++
+				for _, v := range []ssa.Value{cd.X, cd.Y} {
+					if b, isB := v.Type().Underlying().(*types.Basic); !isB || (b.Kind() != types.Int64 && b.Kind() != types.Uint64) {
+						bad = append(bad, sprintf("an operand of the comparison at %s has type %s", c.pos(i.Cond.Pos()), v.Type()))
+					}
+				}
+			}
+		}
+		if n > 0 {
+			r.Check(len(bad) == 0, "R07.G", "guard:resPQ.fingerprint/all-64-bits", c.pos(mk.Pos()), "the offered fingerprint and the configured key's are compared as 64-bit numbers; "+strings.Join(bad, "; "))
+		} else {
+			r.Hold("R07.G", "guard:resPQ.fingerprint/all-64-bits", c.pos(mk.Pos()), "the fingerprint comparison is not a direct == in makeAuthKey (helper or bytes.Equal form: the guard row checks its operands)")
+		}
+	}
 	// resPQ.pq is a reply field like the nonces: a value that is not a product of two primes (zero makes SplitPQ
 	// divide by zero, a prime makes it search for ever) has to end the exchange with an error, so the SplitPQ call
 	// lies behind the not-prime edge of a primality test and behind a lower bound, both on the value it is given
